@@ -14,7 +14,9 @@ if [ -n "${SEEDWT:-}" ]; then
 fi
 if [ -n "$(git -C $R status --porcelain --untracked-files=no)" ]; then echo "$R not clean"; exit 9; fi
 git -C $R apply "$PATCH" || { echo "patch does not apply"; exit 9; }
-trap 'git -C $R checkout -- . ' EXIT
+# the run rewrites evidence/<PROP>.json from a deliberately broken tree: keep the committed record
+EV=/verif/evidence/$PROP.json; [ -f $EV ] && cp $EV /tmp/seedrun.$$.ev
+trap 'git -C $R checkout -- . ; [ -f /tmp/seedrun.$$.ev ] && mv -f /tmp/seedrun.$$.ev $EV' EXIT
 L=/tmp/seedrun.$$.log
 ./check.sh "$PROP" "$TIER" > $L 2>&1; rc=$?
 grep -c "^VIOLATION" $L | sed "s/^/violations: /"
